@@ -4,4 +4,4 @@ Extraction Language OCaml.
 Extraction "../build/c08/model.ml"
   N.of_nat prim_idx unfold from_graph
   lists_exactly_b spec_tree walk_package maps_of ids_one_to_one_b res_pairs resources_agree_b
-  sites_of expected_uses uses_agree_b.
+  sites_of expected_uses uses_agree_b wt_graph_b shares_created_b.
